@@ -303,6 +303,19 @@ fn random(src: &mut Src, st: &mut Stats, _env: &Env) -> CaseResult {
         0 => wide_int(src, len),
         _ => *src.pick(&[None, Some(1), Some(-1), Some(2), Some(-2), Some(3), Some(-3), Some(7), Some(-7), Some(64), Some(-64)]),
     };
+    // now and then an index or slice whose numeral does not fit 32 bits (rejected by compile,
+    // a documented lexical rule) is compiled first: the slice that follows is unaffected
+    if src.chance(28) {
+        let big = *src.pick(&["2147483648", "-2147483649", "99999999999", "4294967296", "18446744073709551616"]);
+        let t = match src.below(4) {
+            0 => format!("xs[{}]", big),
+            1 => format!("xs[0:{}]", big),
+            2 => format!("xs[{}:]", big),
+            _ => format!("xs[::{}]", big),
+        };
+        crate::syn::replay_disturbance(&t);
+        st.class("preceded-by-out-of-range-numeral");
+    }
     check_slice("random", len, a, b2, c, st, c.unwrap_or(1) != 0)?;
     // the same triple in other spellings of its numbers and blanks: leading zeros are part of a
     // number token (only a minus sign must be followed by 1-9), blanks may surround every token
